@@ -63,6 +63,14 @@ func (e *Env) FailSig(oracle, sigDetail, format string, args ...any) {
 
 func (e *Env) Failed() bool { return e.V != nil || e.Infra != nil }
 
+// CheckPanics turns a panic recorded by the server's panic handler into the run's
+// violation (with the default handler the process would have died).
+func (e *Env) CheckPanics() {
+	if e.W != nil && len(e.W.Panics) > 0 && e.V == nil {
+		e.FailSig("panic", firstLine(e.W.Panics[0]), "server goroutine panicked: %s", e.W.Panics[0])
+	}
+}
+
 // NewMessage makes the next generator message.
 func (e *Env) NewMessage(seed int, o gen.Opts) *gen.Message {
 	e.nextMark++
